@@ -33,13 +33,19 @@ def cases(tier, seed):
     for k in range(n):
         d = rng.randint(1, 3)
         nu = rng.randint(1, 4)
+        # planned hostile family: dense model, d >= 2, per-dimension noise levels 8 decades apart at every time point (the
+        # innovation factors then have singular values 1e-8 apart: any truncation or regularisation of the small one shows;
+        # seed C12-s3 widened the least-squares cutoff to the float32 epsilon)
+        spread = (k // 2) % 3 == 0 and (k // 6) % 2 == 0
+        if spread:
+            d = rng.randint(2, 3)
         field, inits, t0 = poly.random_problem(rng, d=d, nblocks=1, num_coeffs=nu + 1, degree=2, nterms=2, time_dep=rng.random() < 0.5)
         T = rng.randint(2, 12 if tier == "thorough" else 8)
         out.append(
             {
                 "id": f"c12-{k}", "source": ["fixedgrid", "checkpoints"][k % 2], "fact": configs.FACTS[(k // 2) % 3],
                 "cal": rng.choice(configs.CALS), "ts": rng.choice(["ts0", "ts1"]), "nu": nu, "init": rng.choice(["exact", "inexact"]),
-                "T": T, "index": rng.randint(0, nu), "average": rng.random() < 0.5, "per_dim": rng.random() < 0.6,
+                "T": T, "index": rng.randint(0, nu), "average": rng.random() < 0.5, "per_dim": True if spread else rng.random() < 0.6, "spread": spread,
                 "far": rng.random() < 0.3, "span": rng.uniform(0.2, 1.0),
                 "field": field.to_json(), "inits": [[str(x) for x in b] for b in inits], "t0": str(t0),
                 "seedc": rng.randrange(10**9), "cost": 5.0,
@@ -91,6 +97,9 @@ def run_case(case):
         std_arg = jnp.asarray(std)
     else:
         std = np.exp(r.uniform(np.log(1e-6), np.log(1e3), size=(T, d))) if case["per_dim"] else np.repeat(np.exp(r.uniform(np.log(1e-6), np.log(1e3), size=(T, 1))), d, axis=1)
+        if case.get("spread"):
+            std[:, 0] = np.exp(r.uniform(np.log(1e-6), np.log(1e-5), size=T))
+            std[:, 1:] = np.exp(r.uniform(np.log(1e2), np.log(1e3), size=(T, d - 1)))
         std_full = std.reshape(-1)
         std_arg = jnp.asarray(std)
     total_std = np.sqrt(np.maximum(np.diag(P), 0) + std_full**2)
